@@ -33,7 +33,7 @@ VERUS_TIMEOUT = int(os.environ.get('VERIF_VERUS_TIMEOUT', '600'))
 def units_for(prop, tier):
     res = []
     for p in sorted(glob.glob(os.path.join(VERIF, 'verus', 'units', '*.unit'))):
-        txt = open(p).read()
+        txt = extract.unit_text(p)
         if re.search(r'//\s*@[C0-9,]*\b' + prop + r'\b', txt):
             m = re.search(r'^@@#\s*tier:\s*(\w+)', txt, re.M)
             utier = m.group(1) if m else 'quick'
@@ -61,6 +61,10 @@ def run_verus(unit_path, canary=False):
         text, canaries = add_canaries(em, text)
     open(out_rs, 'w').write(text)
     cmd = ['verus', out_rs, '--output-json', '--time', '--multiple-errors', '60', '--triggers-mode', 'silent', '--expand-errors']
+    mvo = re.search(r'^@@#\s*verify-only:\s*(\w+)', extract.unit_text(unit_path), re.M)
+    verify_only = mvo.group(1) if mvo else None
+    if verify_only:
+        cmd += ['--verify-root', '--verify-function', verify_only]
     try:
         p = subprocess.run(cmd, capture_output=True, text=True, timeout=VERUS_TIMEOUT, cwd=os.path.join(WORK, 'units'))
     except subprocess.TimeoutExpired:
@@ -74,7 +78,7 @@ def run_verus(unit_path, canary=False):
     except Exception:
         js = None
     res = {'unit': name, 'wall_s': wall, 'cmd': ' '.join(cmd), 'rs': out_rs, 'em': em, 'lines': text.split('\n'),
-           'stderr': stderr, 'canaries': canaries}
+           'stderr': stderr, 'canaries': canaries, 'verify_only': verify_only}
     if js is None or 'verification-results' not in js:
         # rustc error before verification (type error after a source change, unsupported syntax ...)
         first = next((l for l in stderr.split('\n') if l.startswith('error')), 'no output')
@@ -123,6 +127,9 @@ def add_canaries(em, text):
     canaries = {}
     inserts = []
     for fn, info in em.functions.items():
+        if any(em.origin[i]['kind'] == 'attr' and 'external_body' in lines[i]
+               for i in range(info['first_line'] - 1, min(info.get('last_line', info['first_line']), len(lines)))):
+            continue
         # body starts at the first line of kind 'body' for this fn
         for idx in range(info['first_line'] - 1, info.get('last_line', info['first_line'])):
             o = em.origin[idx]
@@ -266,6 +273,8 @@ def obligations_of(run, prop):
     safety = load_safety(em, lines)
     obs = []
     for fn, info in em.functions.items():
+        if not fn_is_verified_here(run, fn):
+            continue
         for lab in info['labels']:
             if prop in lab['props']:
                 obs.append({'id': lab['label'], 'fn': fn, 'kind': 'clause', 'text': lab['text'], 'line': lab['line']})
@@ -273,6 +282,21 @@ def obligations_of(run, prop):
             obs.append({'id': short_fn(fn) + '#safety', 'fn': fn, 'kind': 'safety',
                         'text': 'no panic / overflow / out-of-bounds; callee preconditions, assertions, loop invariants and termination measures hold'})
     return obs
+
+
+def fn_is_verified_here(run, fn):
+    """False for functions whose contract is only *assumed* in this unit (external_body; verified in a
+    derived unit) and, in a verify-only unit, for every function but the selected one."""
+    em, lines = run['em'], run['lines']
+    info = em.functions[fn]
+    vo = run.get('verify_only')
+    if vo and not re.search(r'::' + re.escape(vo) + r'$', fn):
+        return False
+    for idx in range(info['first_line'] - 1, min(info.get('last_line', info['first_line']), len(lines))):
+        o = em.origin[idx]
+        if o['fn'] == fn and o['kind'] == 'attr' and 'external_body' in lines[idx]:
+            return False
+    return True
 
 
 def has_body(em, fn):
